@@ -61,6 +61,7 @@ Match ==
      /\ Range(Line.evs) = {Strip(i) : i \in evs} /\ Len(Line.evs) = Cardinality(evs)
      /\ OrderOK(Line.effs, out) /\ OrderOK(Line.evs, out)
      /\ Line.live = Cardinality(LiveIn(St, RootKey))
+     /\ ("alive" \in DOMAIN Line) => Range(Line.alive) = ScriptTasksAlive
      /\ Line.done = (LiveIn(St, RootKey) = {})
   /\ Take(RootKey)
   /\ l' = l + 1 /\ ph' = "act" /\ UNCHANGED progs
